@@ -17,7 +17,7 @@ use vpmc::zoo::*;
 #[derive(Debug, Clone, Copy, PartialEq)]
 enum Call {
     Obs { rows: usize, cols: usize },
-    /// len, kind 0 = all ones, 1 = ramp
+    /// len, kind 0 = all ones, 1 = ramp, 2 = ramp times 2^66 (about 7e19: finite in f32, its square is not)
     W { len: usize, kind: u8 },
     Eps(f64),
 }
@@ -25,7 +25,7 @@ enum Call {
 fn call_json(c: &Call) -> Value {
     match c {
         Call::Obs { rows, cols } => json!({"observations": [rows, cols]}),
-        Call::W { len, kind } => json!({"weights": {"len": len, "kind": if *kind == 0 {"ones"} else {"ramp"}}}),
+        Call::W { len, kind } => json!({"weights": {"len": len, "kind": match *kind { 0 => "ones", 1 => "ramp", _ => "ramp*2^66" }}}),
         Call::Eps(e) => json!({"epsilon": format!("{:e}", e), "bits": format!("{:016x}", e.to_bits())}),
     }
 }
@@ -34,7 +34,7 @@ fn call_parse(v: &Value) -> Call {
         return Call::Obs { rows: o[0].as_u64().unwrap() as usize, cols: o[1].as_u64().unwrap() as usize };
     }
     if let Some(w) = v.get("weights") {
-        return Call::W { len: w["len"].as_u64().unwrap() as usize, kind: if w["kind"] == "ones" { 0 } else { 1 } };
+        return Call::W { len: w["len"].as_u64().unwrap() as usize, kind: if w["kind"] == "ones" { 0 } else if w["kind"] == "ramp" { 1 } else { 2 } };
     }
     Call::Eps(f64::from_bits(u64::from_str_radix(v["bits"].as_str().unwrap(), 16).unwrap()))
 }
@@ -95,7 +95,12 @@ fn ymat<T: Sc>(cfg: &Cfg, rows: usize, cols: usize) -> DMatrix<T> {
 }
 fn wvec<T: Sc>(len: usize, kind: u8) -> DVector<T> {
     // powers of two keep the weighted diagonal matrix exact
-    DVector::from_fn(len, |i, _| if kind == 0 { T::f(1.0) } else { T::f([1.0, 0.5, 2.0, 4.0][i % 4]) })
+    let big = 2.0f64.powi(66);
+    DVector::from_fn(len, |i, _| match kind {
+        0 => T::f(1.0),
+        1 => T::f([1.0, 0.5, 2.0, 4.0][i % 4]),
+        _ => T::f(big * [1.0, 0.5, 2.0, 4.0][i % 4]),
+    })
 }
 
 fn run_sequence<T: Sc>(cfg: &Cfg, seq: &[Call]) -> Result<Box<dyn Prob<T>>, String> {
@@ -280,10 +285,12 @@ fn check_sequence<T: Sc>(ctx: &Ctx, cfg: &Cfg, seq: &[Call], tally: &mut (u64, u
                     let c = o.coef_f64().unwrap();
                     let scale = c_ref.iter().fold(0.0f64, |a, b| a.max(b.abs())).max(1.0);
                     let tol = 256.0 * T::EPS * scale;
+                    // the residuals carry the weights' magnitude (unchanged for the weights up to 4 of the other kinds)
+                    let wscale = wv.iter().fold(0.0f64, |a, b| a.max(b.abs() / 4.0)).max(1.0);
                     let dc = (0..c_ref.len()).map(|i| (c.as_slice()[i] - c_ref.as_slice()[i]).abs()).fold(0.0f64, f64::max);
                     let res: Vec<f64> = o.res.as_ref().unwrap().iter().map(|b| T::from_bits64(*b).d()).collect();
                     let dr = (0..r_ref.len()).map(|i| (res[i] - r_ref.as_slice()[i]).abs()).fold(0.0f64, f64::max);
-                    if c.nrows() != 3 || c.ncols() != c_ref.ncols() || !(dc <= tol) || res.len() != r_ref.len() || !(dr <= 4.0 * tol) {
+                    if c.nrows() != 3 || c.ncols() != c_ref.ncols() || !(dc <= tol) || res.len() != r_ref.len() || !(dr <= 4.0 * tol * wscale) {
                         ctx.with(|s| s.violate("C18", "initial-state-not-least-squares", case(), format!("coefficients deviate by {:e}, residuals by {:e} from the weighted least-squares solution (tolerance {:e}; smallest singular value {:e}, threshold {:e})", dc, dr, tol, smin, thr)));
                     }
                     ctx.with(|s| s.inc("dense_initial_state_checked"));
@@ -294,6 +301,7 @@ fn check_sequence<T: Sc>(ctx: &Ctx, cfg: &Cfg, seq: &[Call], tally: &mut (u64, u
                 let d2 = d2_of::<T>(cfg);
                 let wmin = match last_w {
                     Some((_, 1)) => 0.5,
+                    Some((_, 2)) => 0.5 * 2.0f64.powi(66),
                     _ => 1.0,
                 }; // weight on row 1 is 0.5 for the ramp kind
                 let s2 = d2 * wmin;
@@ -347,6 +355,10 @@ fn alphabet(cfg: &Cfg, thorough: bool) -> Vec<Call> {
             }
             v.push(Call::W { len, kind });
         }
+    }
+    if !big && cfg.out_len != 4 {
+        // finite weights whose squares are not finite in f32: consistent input like any other weights of the right length
+        v.push(Call::W { len: cfg.out_len, kind: 2 });
     }
     for e in [1e-2, -1e-2, 1e-8, -1e-8, 0.0] {
         v.push(Call::Eps(e));
